@@ -352,7 +352,10 @@ func fullLoopsOver(info *types.Info, root ast.Node, isSrc func(e ast.Expr) bool)
 			if !ok {
 				return true
 			}
-			// the counter is the header variable the condition tests
+			// the counter is the header variable the condition tests (on either side)
+			if inc0, ok := lp.Post.(*ast.IncDecStmt); ok {
+				b = orientCmp(b, func(e ast.Expr) bool { return prog.IdentObj(info, e) == prog.IdentObj(info, inc0.X) })
+			}
 			iv := prog.IdentObj(info, b.X)
 			k := -1
 			for i, l := range as.Lhs {
@@ -412,4 +415,34 @@ func fullLoopsOver(info *types.Info, root ast.Node, isSrc func(e ast.Expr) bool)
 		}
 	}
 	return out
+}
+
+// flipCmp mirrors a comparison operator (a < b  <=>  b > a).
+func flipCmp(op token.Token) token.Token {
+	switch op {
+	case token.LSS:
+		return token.GTR
+	case token.GTR:
+		return token.LSS
+	case token.LEQ:
+		return token.GEQ
+	case token.GEQ:
+		return token.LEQ
+	}
+	return op // == and != are symmetric
+}
+
+// orientCmp returns the comparison with the operand accepted by isLeft on the left-hand side,
+// mirroring the operator when the source has it on the right (`r.End > j` is read as `j < r.End`).
+// The result is b itself when it is already oriented or when neither operand qualifies.
+func orientCmp(b *ast.BinaryExpr, isLeft func(ast.Expr) bool) *ast.BinaryExpr {
+	switch b.Op {
+	case token.LSS, token.GTR, token.LEQ, token.GEQ, token.EQL, token.NEQ:
+	default:
+		return b
+	}
+	if isLeft(b.X) || !isLeft(b.Y) {
+		return b
+	}
+	return &ast.BinaryExpr{X: b.Y, OpPos: b.OpPos, Op: flipCmp(b.Op), Y: b.X}
 }
